@@ -261,11 +261,83 @@ def neutral_variants(files):
         for old in ('continuation_token', 'start_file_name'):
             n2[p] = n2[p].replace(f'{old}=', f'{RENAMES[old]}=')
     out.append(('N2-local-renaming', {**files, **n2}))
+    # N3: every local variable of every function renamed
+    n3 = {}
+    for p, t in files.items():
+        if p.endswith('.py'):
+            n3[p] = rename_all_locals(t)
+    out.append(('N3-all-locals-renamed', {**files, **n3}))
     return out
 
 
 def _is_public_param(fn, name):
     return False
+
+
+def rename_all_locals(text):
+    """N3: rename EVERY local variable of every function (names bound by assignment,
+    loops, with/except-as, comprehensions, walrus - not parameters, not globals) to
+    `<name>_r`, consistently through nested functions (closures)."""
+    tree = ast.parse(text)
+
+    def bound_names(fn):
+        names, params = set(), set()
+        for n in ast.walk(fn):
+            if isinstance(n, (ast.FunctionDef, ast.AsyncFunctionDef, ast.Lambda)):
+                a = n.args
+                for x in a.posonlyargs + a.args + a.kwonlyargs + ([a.vararg] if a.vararg else []) + ([a.kwarg] if a.kwarg else []):
+                    params.add(x.arg)
+                if n is not fn and not isinstance(n, ast.Lambda):
+                    names.add(n.name)
+            elif isinstance(n, ast.Name) and isinstance(n.ctx, (ast.Store, ast.Del)):
+                names.add(n.id)
+            elif isinstance(n, ast.ExceptHandler) and n.name:
+                names.add(n.name)
+            elif isinstance(n, (ast.Global,)):
+                params |= set(n.names)
+        return names - params
+
+    class Ren(ast.NodeTransformer):
+        def __init__(self, names):
+            self.names = names
+
+        def visit_Name(self, n):
+            if n.id in self.names:
+                n.id = n.id + '_r'
+            return n
+
+        def visit_ExceptHandler(self, n):
+            if n.name in self.names:
+                n.name = n.name + '_r'
+            self.generic_visit(n)
+            return n
+
+        def visit_FunctionDef(self, n):
+            if n.name in self.names:
+                n.name = n.name + '_r'
+            self.generic_visit(n)
+            return n
+
+        visit_AsyncFunctionDef = visit_FunctionDef
+
+        def visit_Nonlocal(self, n):
+            n.names = [x + '_r' if x in self.names else x for x in n.names]
+            return n
+
+    def outer_functions(node):
+        for c in ast.iter_child_nodes(node):
+            if isinstance(c, (ast.FunctionDef, ast.AsyncFunctionDef)):
+                yield c
+            elif isinstance(c, (ast.ClassDef, ast.If, ast.Try)):
+                yield from outer_functions(c)
+
+    for fn in outer_functions(tree):
+        names = bound_names(fn)
+        names.discard(fn.name)
+        body_ren = Ren(names)
+        for st in fn.body:
+            body_ren.visit(st)
+    return ast.unparse(tree) + '\n'
 
 
 def _run(prop, files, extra):
